@@ -330,7 +330,15 @@ pub fn content_class(rng: &mut Rng, class: u32, n: usize) -> Vec<u8> {
             // text ending in a UTF-8 edge case: a multi-byte character cut short, overlong forms,
             // surrogates, beyond U+10FFFF, the extremes of each encoded length; class 8 puts a valid
             // ERROR-CODE header (class 3..6, number 0..99) in front so that the text is a reason phrase
-            const TAILS: [&[u8]; 18] = [
+            const TAILS: [&[u8]; 26] = [
+                &[0xe2, 0x80, 0xa8],
+                &[b'a', 0xe2, 0x80, 0xa9, b'b'],
+                &[0xc2, 0x85],
+                &[0xe2, 0x80, 0x8b],
+                &[0xe2, 0x80, 0xae, b'x'],
+                &[b'\r', b'\n', 0x1b, b'[', b'0', b'm'],
+                &[0xef, 0xbf, 0xbd],
+                &[0xef, 0xbf, 0xbd, b'x', 0xef, 0xbf, 0xbd],
                 &[0xc3],
                 &[0xe2, 0x82],
                 &[0xf0, 0x9f, 0x98],
